@@ -4,23 +4,23 @@ X == Sym("x")  V == Sym("v")  A == Sym("a")  Bc == Sym("b")  DT == Sym("dt")
 \* B1: the classic constant-acceleration model with a calibrated bias, two sensors
 B1 == [state |-> {"x", "v"}, control |-> {"a"}, calib |-> {"b"},
        update |-> ("x" :> Bin("add", X, Bin("mul", V, DT))) @@ ("v" :> Bin("add", V, Bin("mul", Bin("sub", A, Bc), DT))),
-       calmap |-> ("b" :> RQ(1, 2)), pnoise |-> ("a" :> RI(2)),
+       calmap |-> ("b" :> RQ(1, 2)), pnoise |-> ("a" :> RI(2)), ppairs |-> <<>>,
        sensors |-> ("s1" :> (("r" :> X) @@ ("q1" :> Bin("add", V, Bc)))) @@ ("alt" :> ("h" :> Pow(X, 2))),
        snoise  |-> ("s1" :> (("r" :> RI(1)) @@ ("q1" :> RI(3)))) @@ ("alt" :> ("h" :> RI(2)))]
 \* B2: no control, no calibration, one sensor with one reading
 B2 == [state |-> {"p"}, control |-> {}, calib |-> {},
        update |-> ("p" :> Bin("mul", Sym("p"), CI(2))),
-       calmap |-> <<>>, pnoise |-> <<>>,
+       calmap |-> <<>>, pnoise |-> <<>>, ppairs |-> <<>>,
        sensors |-> ("gps" :> ("zz" :> Sym("p"))), snoise |-> ("gps" :> ("zz" :> RI(1)))]
 \* B3: two controls, two calibrations, one state, one sensor with two readings
 B3 == [state |-> {"Z"}, control |-> {"u", "w"}, calib |-> {"k", "m"},
        update |-> ("Z" :> Bin("add", Sym("Z"), Bin("mul", Bin("add", Bin("mul", Sym("u"), Sym("k")), Sym("w")), DT))),
-       calmap |-> ("k" :> RI(2)) @@ ("m" :> RI(-1)), pnoise |-> ("u" :> RI(1)) @@ ("w" :> RQ(1, 2)),
+       calmap |-> ("k" :> RI(2)) @@ ("m" :> RI(-1)), pnoise |-> ("u" :> RI(1)) @@ ("w" :> RI(0)), ppairs |-> <<>>,   \* zero noise for a declared control is valid (only negative is not)
        sensors |-> ("Baro" :> (("Q" :> Bin("mul", Sym("Z"), Sym("m"))) @@ ("r0" :> Sym("Z")))),
        snoise  |-> ("Baro" :> (("Q" :> RI(2)) @@ ("r0" :> RI(1))))]
 \* B4: no sensors at all, one control
 B4 == [state |-> {"y", "c"}, control |-> {"q"}, calib |-> {},
        update |-> ("y" :> Bin("add", Sym("y"), Sym("q"))) @@ ("c" :> Sym("c")),
-       calmap |-> <<>>, pnoise |-> ("q" :> RI(3)), sensors |-> <<>>, snoise |-> <<>>]
+       calmap |-> <<>>, pnoise |-> ("q" :> RI(3)), ppairs |-> <<>>, sensors |-> <<>>, snoise |-> <<>>]
 cBases == <<B1, B2, B3, B4>>
 ====
